@@ -634,6 +634,22 @@ func c05Generate(r *rng, c *c05Chain, run *c05Runner, nblocks int) ([]c05Op, err
 		}
 	}
 	for b := 0; b < nblocks; b++ {
+		if r.chance(10) && b+3 < nblocks {
+			// a setting updated several times in one block, read and used in the two following blocks (see c01MultiUpdate)
+			ups, reads := c01MultiUpdate(g, map[int]bool{}, false, []int{0, 0, 0, 1, 1, 2, 5}) // not the execution / storage prices: "oog" relies on them
+			for _, blk := range [][]c05Op{ups, reads(), reads()} {
+				for _, op := range blk {
+					if err := g.emit(op); err != nil {
+						return g.ops, err
+					}
+				}
+				if err := g.emit(c05Op{T: "blk"}); err != nil {
+					return g.ops, err
+				}
+			}
+			b += 2
+			continue
+		}
 		n := r.intn(6)
 		if r.chance(15) {
 			n = 0
